@@ -406,13 +406,19 @@ func sizeList(r *gen.R, max int, all bool) []int {
 func runVerify(r *gen.R, budget, max int, allSizes bool) {
 	sizes := sizeList(r, max, allSizes)
 	lines := 0
-	for round := 0; lines < budget; round++ {
-		for _, n := range sizes {
-			if lines >= budget {
+	// round 0 always walks the whole size list (all padding classes up to max); later rounds repeat it
+	// with fresh sets until the budget of validate lines is used up
+	for round := 0; round == 0 || lines < budget; round++ {
+		for k, n := range sizes {
+			if round > 0 && lines >= budget {
 				break
 			}
 			ps := genSet(r, n, 0)
-			heights := []int64{preHeights[r.Intn(len(preHeights))], postHeights[r.Intn(len(postHeights))]}
+			pre, post := preHeights[r.Intn(len(preHeights))], postHeights[r.Intn(len(postHeights))]
+			heights := []int64{pre, post}
+			if n > 70 { // big sets: one era per set, alternating
+				heights = heights[(k+round)%2 : (k+round)%2+1]
+			}
 			for _, h := range heights {
 				t := mkTree(ps, h)
 				if !t.rootOK {
@@ -421,7 +427,7 @@ func runVerify(r *gen.R, budget, max int, allSizes bool) {
 				if !t.distinct {
 					hypBad++
 				}
-				for _, i := range indices(r, n, false, 12+28*b2i(n <= 40)) {
+				for _, i := range indices(r, n, false, 8+32*b2i(n <= 40)) {
 					p, leaf, ok := realProof(t, i)
 					if !ok {
 						continue
@@ -431,7 +437,7 @@ func runVerify(r *gen.R, budget, max int, allSizes bool) {
 				}
 			}
 		}
-		if round > 50 {
+		if round > 200 {
 			break
 		}
 	}
@@ -572,6 +578,16 @@ func mutations(r *gen.R, t *tree, p proof, leaf pc.Proof, index int) {
 		if m != p.target.lo {
 			q.target.lo, q.sibs[0].up = m, m
 			val(t, "pair-midpoint", q, leaf, t.root, L)
+		}
+	}
+	// the mirror image for an even leaf is stopped only by the comparison of the target's upper bound
+	// with the sum of its hash
+	if index%2 == 0 && p.sibs[0].up-p.target.lo >= 2 {
+		q = p.clone()
+		m := p.target.lo + 1 + r.U64()%(p.sibs[0].up-p.target.lo-1)
+		if m != p.target.up {
+			q.target.up, q.sibs[0].lo = m, m
+			val(t, "pair-midpoint-even", q, leaf, t.root, L)
 		}
 	}
 	// root
